@@ -10,6 +10,7 @@ import random
 from io import StringIO
 import copy
 from bisect import bisect_right, bisect_left
+from numbers import Integral
 
 import networkx
 
@@ -232,6 +233,8 @@ class Graph(BaseGraph):
             self.name = name
 
     def add_edge(self, u, v):
+        if not (isinstance(u, Integral) and isinstance(v, Integral)):
+            raise ValueError("u,v must be integers")
         if not (1 <= u <= self.n and 1 <= v <= self.n and u != v):
             raise ValueError(
                 "u,v must be distinct, between 1 and the number of nodes")
@@ -254,6 +257,8 @@ class Graph(BaseGraph):
         self.n = max(self.n, new_value)
 
     def remove_edge(self,u,v):
+        if not (isinstance(u, Integral) and isinstance(v, Integral)):
+            raise ValueError("u,v must be integers")
         if not self.has_edge(u,v):
             return
         self.edgeset.remove((u,v))
@@ -410,6 +415,8 @@ edges can be added and not removed."""
             self.name = name
 
     def add_edge(self, src, dest):
+        if not (isinstance(src, Integral) and isinstance(dest, Integral)):
+            raise ValueError("u,v must be integers")
         if not (1 <= src <= self.n and 1 <= dest <= self.n):
             raise ValueError(
                 "u,v must be distinct, between 1 and the number of nodes")
@@ -622,6 +629,8 @@ class BipartiteGraph(BaseBipartiteGraph):
         >>> G.right_neighbors(2)
         [2, 3]
         """
+        if not (isinstance(u, Integral) and isinstance(v, Integral)):
+            raise ValueError("Invalid choice of vertices: not integers")
         if not (1 <= u <= self.lorder and 1 <= v <= self.rorder):
             raise ValueError("Invalid choice of vertices")
 
